@@ -34,20 +34,37 @@ Qed.
 Lemma runner_index_lt : forall lo hi n, 1 <= n -> runner_index lo hi n < n.
 Proof. intros. unfold runner_index. cbn zeta. lia. Qed.
 
-Lemma assign_out_ids_flat : forall n cs shards rs,
+Lemma assign_out_ids_flat : forall (f : shard -> N) cs shards rs,
   map (fun a => snd (fst a)) (flat_map (fun r => map (fun s => (r, sid s, cursor_of cs (sid s)))
-       (filter (fun s => runner_index (hlo s) (hhi s) n =? r) shards)) rs)
-  = map sid (flat_map (fun r => filter (fun s => runner_index (hlo s) (hhi s) n =? r) shards) rs).
+       (filter (fun s => f s =? r) shards)) rs)
+  = map sid (flat_map (fun r => filter (fun s => f s =? r) shards) rs).
 Proof.
-  intros n cs shards rs. induction rs as [|r rs IH]; cbn [flat_map map]; [reflexivity|].
+  intros f cs shards rs. induction rs as [|r rs IH]; cbn [flat_map map]; [reflexivity|].
   rewrite !map_app, IH, map_map. reflexivity.
 Qed.
 
-(* the shard ids of one AssignSplits call are a permutation of the pending shards: each exactly once *)
+(* ANY choice of runners into range: grouping a list by a function with values < n is a partition of the list *)
+Theorem any_policy_is_a_partition {A} : forall (f : A -> N) (l : list A) n, (forall x, In x l -> f x < n) ->
+  Permutation (flat_map (fun r => filter (fun x => f x =? r) l) (iota_from 0 (N.to_nat n))) l.
+Proof.
+  intros f l n Hf. rewrite (flat_map_filter_range f l (N.to_nat n) 0).
+  replace (filter (fun x => (0 <=? f x) && (f x <? 0 + N.of_nat (N.to_nat n))) l) with l; [apply Permutation_refl|].
+  clear -Hf. induction l as [|x r IH]; cbn [filter]; [reflexivity|].
+  pose proof (Hf x (or_introl eq_refl)). replace ((0 <=? f x) && (f x <? 0 + N.of_nat (N.to_nat n))) with true by lia.
+  f_equal. apply IH. intros y Hy. apply Hf. right. exact Hy.
+Qed.
+
+(* the shard ids of one AssignSplits call are a permutation of the pending shards - each exactly once - for every
+   assignment function into range *)
+Theorem assign_out_with_each_once : forall f n cs shards, (forall s, In s shards -> f s < n) ->
+  Permutation (map (fun a => snd (fst a)) (assign_out_with f n cs shards)) (map sid shards).
+Proof.
+  intros f n cs shards Hf. unfold assign_out_with. rewrite assign_out_ids_flat. apply Permutation_map.
+  apply any_policy_is_a_partition. exact Hf.
+Qed.
+
 Theorem assign_out_each_once : forall n cs shards, 1 <= n ->
   Permutation (map (fun a => snd (fst a)) (assign_out n cs shards)) (map sid shards).
 Proof.
-  intros n cs shards Hn. unfold assign_out. rewrite assign_out_ids_flat. apply Permutation_map.
-  rewrite (flat_map_filter_range (fun s => runner_index (hlo s) (hhi s) n) shards (N.to_nat n) 0).
-  rewrite filter_all; [apply Permutation_refl|]. intro x. pose proof (runner_index_lt (hlo x) (hhi x) n Hn). lia.
+  intros n cs shards Hn. unfold assign_out. apply assign_out_with_each_once. intros s _. apply runner_index_lt. exact Hn.
 Qed.
